@@ -337,6 +337,7 @@ def applyOp (s : St) (ws : List String) : St × String :=
     (s, s!"micr={hex2 m.core.bus.micr} enabled={b01 m.core.bus.keyEdgeEnabled}")
   | ["spec.busstat"] => (s, "consistent")
   | ["spec.costscratch", _, _] => (s, "same")  -- C15: the cost does not depend on what earlier instructions left in the scratch registers
+  | ["spec.alupure", _] => (s, "pure")  -- C08: the ALU is a function of (function, A, B, carry-in)
   | ["spec.cpuread", _] => (s, "pure")  -- the property itself: a read (here by a CPU instruction) changes no state
   | ["spec.irq"] => ({ s with m := m.keyInterrupt, bspec := s.bspec.keyIrq }, "ok")
   | ["spec.busd"] => (s, s.bspec.str)
